@@ -26,6 +26,9 @@ DIMS = {
                          ["ecdh_anon", "dh_anon"]],
     "eccCurves": [None, ["secp256r1"], ["x25519"], ["secp384r1", "secp521r1"], ["x448", "secp256r1"], []],
     "dhGroups": [None, ["ffdhe2048"], ["ffdhe3072", "ffdhe4096"]],
+    "ecdsaSigHashes": [None, ["sha512"], ["sha384", "sha512"], ["sha256"], ["sha1"]],
+    "rsaSigHashes": [None, ["sha384"], ["sha1"], ["sha256", "sha1"]],
+    "rsaSchemes": [None, ["pkcs1"], ["pss"]],
     "keySize": [None, (2048, 8193), (1023, 1536), (512, 1024)],
     "useEncryptThenMAC": [None, False],
     "ems": [None, "off", "require"],
@@ -75,6 +78,7 @@ def abstract(hs, alpn):
     vers = [x[1] for x in [(3, 0), (3, 1), (3, 2), (3, 3), (3, 4)] if v.minVersion <= x <= v.maxVersion]
     return {"vers": vers, "ciphers": list(v.cipherNames), "macs": list(v.macNames), "kexs": list(v.keyExchangeNames),
             "curves": list(v.eccCurves), "dhGroups": list(v.dhGroups), "minKey": v.minKeySize, "maxKey": v.maxKeySize,
+            "rsaHashes": list(v.rsaSigHashes), "ecdsaHashes": list(v.ecdsaSigHashes), "rsaSchemes": list(v.rsaSchemes),
             "etm": bool(v.useEncryptThenMAC), "ems": bool(v.useExtendedMasterSecret), "reqEms": bool(v.requireExtendedMasterSecret),
             "rsl": v.record_size_limit or 0, "alpn": [bytes(a).decode() for a in (alpn or [])]}
 
@@ -154,6 +158,15 @@ def _watch_dh(conn):
     conn._getMsg = _getMsg
 
 
+def _local_msg(co, so):
+    """message of the alert the failing side raised itself (names the call site of a refusal)"""
+    from tlslite.errors import TLSLocalAlert
+    for o in (so, co):
+        if isinstance(o.exc, TLSLocalAlert) and getattr(o.exc, "message", None):
+            return str(o.exc.message)[:90]
+    return ""
+
+
 def run_pair(job):
     idx, cchoice, schoice, scred = job
     try:
@@ -204,7 +217,7 @@ def _run_pair(idx, cchoice, schoice, scred):
     cfg = {"ev": "CFG", "cs": cabs, "ss": sabs, "certKey": scred, "certBits": certbits, "cltBits": cltbits, "clientAuth": ca,
            "certCurve": "secp256r1" if scred == "ecdsa" else "", "candidates": candidates()}
     res = {"ev": "RES", "ok": ok, "cfail": co.exc is not None, "sfail": so.exc is not None,
-           "c_out": co.describe(), "s_out": so.describe(), "status": st}
+           "c_out": co.describe(), "s_out": so.describe(), "status": st, "msg": _local_msg(co, so)}
     if ok:
         res["c"] = view(p.c, "c")
         res["s"] = view(p.s, "s")
@@ -243,7 +256,7 @@ def _run_anon(idx, p, chs, calpn, shs, salpn, cabs, sabs, cchoice, schoice):
     cfg = {"ev": "CFG", "cs": cabs, "ss": sabs, "certKey": "anon", "certBits": 0, "cltBits": 0, "clientAuth": "",
            "certCurve": "", "candidates": candidates()}
     res = {"ev": "RES", "ok": ok, "cfail": co.exc is not None, "sfail": so.exc is not None,
-           "c_out": co.describe(), "s_out": so.describe(), "status": st}
+           "c_out": co.describe(), "s_out": so.describe(), "status": st, "msg": _local_msg(co, so)}
     if ok:
         res["c"] = view(p.c, "c")
         res["s"] = view(p.s, "s")
@@ -351,7 +364,7 @@ def report(rep, traces, meta, rejected, want):
                 bad = "one side completed, the other did not: %s / %s" % (res["c_out"], res["s_out"])
                 kind = "c03"
             else:
-                bad = "settings that must connect did not: %s / %s" % (res["c_out"], res["s_out"])
+                bad = "settings that must connect did not: %s / %s (%s)" % (res["c_out"], res["s_out"], res.get("msg", ""))
                 kind = "c19"
         elif res["ok"] and not res.get("data", True):
             bad, kind = "agreed keys do not carry data", "c03"
